@@ -103,6 +103,14 @@ NOTES = {
     "C03-s12": "first missed: targets whose containers are filled in place after the target was created and asked once for its files",
     "C16-s11": "first a harness error: the change touches files from a thread pool, the violation found did not replay. Violations that were observed but do not reproduce alone are now reported (exit 1) with a note, after up to ten replays of several recorded cases",
     "C16-s12": "C16 first missed it (C18 caught it): hash file in which only the first target's record is out of date",
+    "C18-s11": "C18 first missed it (C15 caught it): workflow in which every output of one target is protected (clean deletes nothing and still forgets the record)",
+    "C20-s11": "first missed: two projects sharing one workflow.py through a symbolic link (configuration and .gwf belong to the project, not to the shared file's directory)",
+    "C15-s12": "first missed: protect entries added to the target after it was created",
+    "C14-s11": "C14 first missed it (C17, C13, C11 caught it): M enqueues a task that waits for H's first task and cancels it again",
+    "C14-s12": "first missed: per-id state query for another client's (the first) task",
+    "C12-s11": "**not detected**: the change adds a per-task `cores` request to the local backend (a new protocol field) and releases more than it took. The pool explorer drives `enqueue_task` with today's signature and never sends the new field; a CLI-level local-backend scenario with an oversized `cores` option and a live-process bound would be needed",
+    "C19-s11": "first missed: inputs found with Workflow.glob / iglob handed to template targets with a working directory of their own",
+    "C19-s12": "C19 first missed it (C03 caught it): `~`, `$`, `%`, `*` in declared paths are plain characters (C19 path values; C03 `tilde` family)",
     "C07-s8": "first missed: the scheduler moves while gwf is submitting (one environment step before the k-th scheduler command of a run)",
 }
 
